@@ -1,0 +1,12 @@
+//go:build verif
+
+package unary
+
+import "github.com/synnaxlabs/x/telem"
+
+// VerifInternal exposes the position of the underlying domain iterator (its current
+// domain's time range and validity) so that verification harnesses built with the verif
+// tag can include it in their canonical state.
+func (i *Iterator) VerifInternal() (telem.TimeRange, bool) {
+	return i.internal.TimeRange(), i.internal.Valid()
+}
